@@ -61,6 +61,11 @@ static_assert(std::is_same<decltype(reverse({ 1, 2, 3 })), nitro::lang::detail::
 static_assert(std::is_same<decltype(reverse(raw)), nitro::lang::detail::reverse<std::vector<std::reference_wrapper<int>>>>::value, "[C20 w25] reverse(int(&)[3]) owns reference_wrappers to the elements");
 static_assert(std::is_same<decltype(reverse(std::vector<int>{}).begin()), std::vector<int>::const_reverse_iterator>::value, "[C20 w26] the owning reverse adaptor iterates crbegin()..crend()");
 
+// const-qualified temporaries (the result of `const C make();`, or a template instantiated with a const container) are owned too
+static_assert(std::is_same<decltype(reverse(std::declval<const std::vector<int>>())), nitro::lang::detail::reverse<const std::vector<int>>>::value, "[C20 w27] reverse(const vector&&) returns the owning adaptor (a proxy into the dead temporary would dangle)");
+static_assert(std::is_same<decltype(enumerate(std::declval<const std::vector<int>>())), nitro::lang::detail::enumerate<const std::vector<int>>>::value, "[C20 w28] enumerate(const vector&&) returns the owning adaptor");
+static_assert(std::is_same<decltype(reverse(std::declval<const std::list<int>>())), nitro::lang::detail::reverse<const std::list<int>>>::value, "[C20 w29] reverse(const list&&) returns the owning adaptor");
+
 void uses()
 {
     for (auto e : enumerate(std::array<int, 2>{ { 1, 2 } })) { (void)e.index(); } // [C20 m1] enumerate(array&&)
